@@ -393,7 +393,78 @@ def tr_pull(tree):
             f"  | c2 :: r => if {c} then grp_src kept r else c2 :: grp_src (kept ++ [c2]) r\n  end.")
 
 
-HEADER = """(* GENERATED by vlib/translator/leaf.py from /repo/src/ovld/{mro,typemap}.py on every run -- do not edit.
+# ---- FuncDependentType.__lt__ (dependent.py): the comparison of two parametrised conditions by their Any wildcards -----
+def tr_dep_lt(tree):
+    """if len(self.parameters) != len(other.parameters): return False
+       A = sum(<cond over p1 is [not] Any, p2 is [not] Any> for p1, p2 in zip(self.parameters, other.parameters)); B = sum(...)
+       return <boolean expression over A, B: truthiness, not, and/or, comparisons>
+    -> dep_lt_src (fa fb : list bool) : bool   (fa / fb: which parameters of self / other are typing.Any)"""
+    fn = _find(tree, "FuncDependentType", "__lt__")
+    if [a.arg for a in fn.args.args] != ["self", "other"]:
+        raise Unsupported("parameters of __lt__")
+    body = [st for st in fn.body if not (isinstance(st, ast.Expr) and isinstance(st.value, ast.Constant))]
+    g = body[0]
+    if not (isinstance(g, ast.If) and ast.unparse(g.test) == "len(self.parameters) != len(other.parameters)"
+            and [ast.unparse(x) for x in g.body] == ["return False"] and not g.orelse):
+        raise Unsupported("length guard")
+    ATOMS = {"p1 is Any": "x", "p1 is not Any": "negb x", "p2 is Any": "y", "p2 is not Any": "negb y"}
+
+    def cond(e):
+        src = ast.unparse(e)
+        if src in ATOMS:
+            return ATOMS[src]
+        if isinstance(e, ast.BoolOp):
+            return "(" + (" && " if isinstance(e.op, ast.And) else " || ").join(cond(v) for v in e.values) + ")"
+        if isinstance(e, ast.UnaryOp) and isinstance(e.op, ast.Not):
+            return "negb (" + cond(e.operand) + ")"
+        raise Unsupported("condition " + src)
+    names = []
+    lets = []
+    for st in body[1:-1]:
+        if not (isinstance(st, ast.Assign) and len(st.targets) == 1 and isinstance(st.targets[0], ast.Name)):
+            raise Unsupported("statement " + ast.unparse(st)[:60])
+        v = st.value
+        if not (isinstance(v, ast.Call) and ast.unparse(v.func) == "sum" and len(v.args) == 1 and isinstance(v.args[0], ast.GeneratorExp)
+                and len(v.args[0].generators) == 1):
+            raise Unsupported("not a sum over a generator: " + ast.unparse(v)[:60])
+        gen = v.args[0].generators[0]
+        if not (ast.unparse(gen.target) in ("(p1, p2)", "p1, p2") and ast.unparse(gen.iter) == "zip(self.parameters, other.parameters)" and not gen.ifs):
+            raise Unsupported("generator " + ast.unparse(gen)[:80])
+        nm = st.targets[0].id
+        names.append(nm)
+        lets.append(f"  let {nm} := count2 (fun x y => {cond(v.args[0].elt)}) fa fb in")
+
+    def truth(e):
+        if isinstance(e, ast.Name) and e.id in names:
+            return f"negb (Nat.eqb {e.id} 0)"
+        if isinstance(e, ast.UnaryOp) and isinstance(e.op, ast.Not):
+            return "negb (" + truth(e.operand) + ")"
+        if isinstance(e, ast.BoolOp):
+            # `a and b` / `a or b` of ints returns one of the operands; only its truth value is used by the caller
+            return "(" + (" && " if isinstance(e.op, ast.And) else " || ").join(truth(v) for v in e.values) + ")"
+        if isinstance(e, ast.Compare) and len(e.ops) == 1:
+            def num(t):
+                if isinstance(t, ast.Name) and t.id in names:
+                    return t.id
+                if isinstance(t, ast.Constant) and isinstance(t.value, int) and not isinstance(t.value, bool) and 0 <= t.value < 100:
+                    return str(t.value)
+                raise Unsupported("operand " + ast.unparse(t))
+            a, b = num(e.left), num(e.comparators[0])
+            op = type(e.ops[0])
+            tbl = {ast.Gt: f"Nat.ltb {b} {a}", ast.Lt: f"Nat.ltb {a} {b}", ast.GtE: f"Nat.leb {b} {a}", ast.LtE: f"Nat.leb {a} {b}",
+                   ast.Eq: f"Nat.eqb {a} {b}", ast.NotEq: f"negb (Nat.eqb {a} {b})"}
+            if op not in tbl:
+                raise Unsupported("comparison " + ast.unparse(e))
+            return "(" + tbl[op] + ")"
+        raise Unsupported("result " + ast.unparse(e))
+    ret = body[-1]
+    if not isinstance(ret, ast.Return):
+        raise Unsupported("no final return")
+    return ("Definition dep_lt_src (fa fb : list bool) : bool :=\n  if negb (Nat.eqb (length fa) (length fb)) then false else\n"
+            + "\n".join(lets) + "\n  " + truth(ret.value) + ".")
+
+
+HEADER = """(* GENERATED by vlib/translator/leaf.py from /repo/src/ovld/{mro,typemap,dependent}.py on every run -- do not edit.
    Proofs/LeafAgree.v proves these equal to the hand-written definitions the model uses. *)
 From Coq Require Import ZArith List Bool Arith.
 Import ListNotations.
@@ -414,6 +485,7 @@ FALLBACK = {
     "arity": "Definition arity_ok_src (m : meth) (nargs : nat) (names : list nat) : bool := arity_ok m nargs names.",
     "pull": "Definition grp_src (kept rest : list cand) : list cand := grp kept rest.",
     "missing": "Definition missing_code_src (foreign remembered stored : bool) : code_action := code_action_of foreign remembered stored.",
+    "dep_lt": "Definition dep_lt_src (fa fb : list bool) : bool := if Nat.eqb (length fa) (length fb) then negb (Nat.eqb (count2 (fun x y => y && negb x) fa fb) 0) && Nat.eqb (count2 (fun x y => x && negb y) fa fb) 0 else false.",
     "tail": "Definition cls_tail_src (s12 s21 : bool) : order := if s12 && s21 then SAME else if s12 then LESS else if s21 then MORE else NONE.",
 }
 
@@ -424,8 +496,9 @@ def regenerate():
     try:
         mro_tree = ast.parse(open(os.path.join(REPO_SRC, "ovld", "mro.py")).read())
         tm_tree = ast.parse(open(os.path.join(REPO_SRC, "ovld", "typemap.py")).read())
+        dep_tree = ast.parse(open(os.path.join(REPO_SRC, "ovld", "dependent.py")).read())
     except Exception as e:  # noqa
-        mro_tree = tm_tree = None
+        mro_tree = tm_tree = dep_tree = None
         notes["parse"] = f"not translated: {e}"
     jobs = [("opposite", lambda: tr_opposite(_find(mro_tree, "Order", "opposite"))),
             ("merge", lambda: tr_merge(_find(mro_tree, "Order", "merge"))),
@@ -434,7 +507,8 @@ def regenerate():
             ("arity", lambda: tr_arity(tm_tree)),
             ("pull", lambda: tr_pull(tm_tree)),
             ("tail", lambda: tr_tail(mro_tree)),
-            ("missing", lambda: tr_missing(tm_tree))]
+            ("missing", lambda: tr_missing(tm_tree)),
+            ("dep_lt", lambda: tr_dep_lt(dep_tree))]
     ok = True
     for name, job in jobs:
         try:
